@@ -2,7 +2,7 @@
 Require Import ZArith List Bool Lia ZifyBool.
 Import ListNotations.
 Local Open Scope Z_scope.
-From EphVerif Require Import lib.Bytes model.JsonModel gen.Constants_json.
+From EphVerif Require Import lib.Bytes lib.Sweep model.JsonModel gen.Constants_json.
 
 (* break the if / match structure of a hypothesis that says a parser step succeeded *)
 Ltac brk H :=
@@ -308,34 +308,13 @@ Definition utf8_spec (cp : Z) : list Z :=
 (* exhaustive check over every code point 0 .. 0x10FFFF (1 114 112 values) *)
 Definition utf8_ok (i : Z) : bool := list_eqb (append_utf8 i) (utf8_spec i).
 
-Lemma my_iter_succ {A} n (f : A -> A) x : Nat.iter (S n) f x = f (Nat.iter n f x).
-Proof. reflexivity. Qed.
-
-Lemma pos_iter_range (f : Z -> bool) (count : positive) : forall lo,
-  snd (Pos.iter (fun st : Z * bool => let '(i, ok) := st in (i + 1, ok && f i)) (lo, true) count) = true ->
-  forall i, lo <= i < lo + Z.pos count -> f i = true.
-Proof.
-  (* generalise over the accumulated flag *)
-  assert (G : forall (n : nat) lo ok,
-             let st := Nat.iter n (fun st : Z * bool => let '(i, ok) := st in (i + 1, ok && f i)) (lo, ok) in
-             fst st = lo + Z.of_nat n /\ (snd st = true -> ok = true /\ forall i, lo <= i < lo + Z.of_nat n -> f i = true)).
-  { induction n as [|n IH]; intros lo ok.
-    - cbn. split; [lia|]. intros H. split; [exact H | intros i Hi; lia].
-    - cbv zeta in *. rewrite my_iter_succ. destruct (IH lo ok) as [Hf Hs].
-      destruct (Nat.iter n _ (lo, ok)) as [j okj] eqn:E. cbn [fst snd] in *. split; [lia|].
-      intros H. apply andb_true_iff in H. destruct H as [H1 H2]. destruct (Hs H1) as [Hok Hall]. split; [exact Hok|].
-      intros i Hi. destruct (Z.eq_dec i j) as [->|Hne]; [exact H2 | apply Hall; lia]. }
-  intros lo H i Hi. rewrite Pos2Nat.inj_iter in H.
-  destruct (G (Pos.to_nat count) lo true) as [_ Hs]. cbv zeta in Hs. destruct (Hs H) as [_ Hall]. apply Hall. lia.
-Qed.
-
-Lemma utf8_sweep : snd (Pos.iter (fun st : Z * bool => let '(i, ok) := st in (i + 1, ok && utf8_ok i)) (0, true) 1114112) = true.
+Lemma utf8_sweep : sweep utf8_ok 0 1114112 = true.
 Proof. vm_compute. reflexivity. Qed.
 
 Theorem append_utf8_correct cp : 0 <= cp < 1114112 -> append_utf8 cp = utf8_spec cp.
 Proof.
   intros H. apply list_eqb_spec. change (utf8_ok cp = true).
-  apply (pos_iter_range utf8_ok 1114112 0 utf8_sweep). lia.
+  apply (sweep_spec utf8_ok 1114112 0 utf8_sweep). lia.
 Qed.
 
 (* hexadecimal digits in either case *)
@@ -348,9 +327,9 @@ Definition hex_check (up : bool) (v : Z) : bool :=
   | [a; b; c; d] => match hex4 a b c d with Some w => w =? v | None => false end
   | _ => false
   end.
-Lemma hex_sweep_lower : snd (Pos.iter (fun st : Z * bool => let '(i, ok) := st in (i + 1, ok && hex_check false i)) (0, true) 65536) = true.
+Lemma hex_sweep_lower : sweep (hex_check false) 0 65536 = true.
 Proof. vm_compute. reflexivity. Qed.
-Lemma hex_sweep_upper : snd (Pos.iter (fun st : Z * bool => let '(i, ok) := st in (i + 1, ok && hex_check true i)) (0, true) 65536) = true.
+Lemma hex_sweep_upper : sweep (hex_check true) 0 65536 = true.
 Proof. vm_compute. reflexivity. Qed.
 
 Lemma hex4_of_text up v : 0 <= v < 65536 ->
@@ -358,7 +337,7 @@ Lemma hex4_of_text up v : 0 <= v < 65536 ->
 Proof.
   intros H.
   assert (C : hex_check up v = true).
-  { destruct up; [apply (pos_iter_range (hex_check true) 65536 0 hex_sweep_upper) | apply (pos_iter_range (hex_check false) 65536 0 hex_sweep_lower)]; lia. }
+  { destruct up; [apply (sweep_spec (hex_check true) 65536 0 hex_sweep_upper) | apply (sweep_spec (hex_check false) 65536 0 hex_sweep_lower)]; lia. }
   unfold hex_check, hex4_text in C.
   destruct (hex4 _ _ _ _) as [w|]; [|discriminate]. f_equal. lia.
 Qed.
